@@ -260,6 +260,7 @@ TBad ==
     /\ viol' = viol \cup {R.e}
                     \cup Flag(R.e \in {"deadlock", "livelock"} /\ "hdepth" \in DOMAIN R /\ R.hdepth > 0,
                               "handler_blocked_or_spinning")
+                    \cup Flag(R.e = "panic" /\ "inh" \in DOMAIN R /\ R.inh = 1, "handler_panicked")
     /\ Keep(<<watched, flag, queue, begun, yielded, gotIds, delivered, bytes, closed, call,
               consulted, lastAns, lastPoll, frames, poisoned>>)
 
@@ -292,7 +293,7 @@ TraceAccepted ==
     ELSE Print(<<"TRACE_REJECTED", d, Rec[d]>>, FALSE)
 
 ----------------------------------------------------------------------------
-C03set == {"handler_blocked_or_spinning", "handler_lock", "handler_hint", "handler_alloc", "handler_free", "handler_steps"}
+C03set == {"handler_blocked_or_spinning", "handler_panicked", "handler_lock", "handler_hint", "handler_alloc", "handler_free", "handler_steps"}
 C09set == {"consumer_blocked_with_unreported_signal",
            "pending_with_unreported_signal_and_no_wakeup",
            "pending_unarmed_with_unreported_signal", "deadlock", "livelock"}
